@@ -1011,6 +1011,8 @@ class EntryStruct(Entry):
             "if (evtag_unmarshal_%(refname)s(%(buf)s, %(tag)s, ",
             "    %(var)s) == -1) {",
             '  event_warnx("%%s: failed to unmarshal %(name)s", __func__);',
+            "  %(refname)s_free(%(var)s);",
+            "  %(var)s = NULL;",
             "  return (-1);",
             "}",
         ]
